@@ -413,6 +413,13 @@ def ev(n, env, funcs=None):
             if args[0].lower().lstrip('+') in ('inf', 'infinity'):
                 return float('inf')
             raise Unsupported('float of a string')
+        if isinstance(f, ast.Name) and fname == 'eval' and len(args) == 1 and isinstance(args[0], str):
+            # eval of a text built by the code (an aggregate name applied to a local): evaluated by this interpreter in the same environment
+            try:
+                tree = ast.parse(args[0], mode='eval')
+            except SyntaxError as ex:
+                raise Raised('SyntaxError', str(ex))
+            return ev(tree.body, env, funcs)
         if isinstance(f, ast.Name) and fname == 'super':
             if 'self' not in env:
                 raise Unsupported('super() outside a method')
